@@ -63,13 +63,43 @@ def scripts(draw, kind):
                                          st.tuples(st.just("time"), st.sampled_from([0.0, 0.005, 0.5, 3.0])))),
                     "mid_packet": draw(st.booleans()),
                     "refusals": draw(st.sampled_from([0, 0, 1, 2, 3, 5, 8, 12])),
-                    "connect_error": draw(st.booleans())})
-    return {"initial_refusals": draw(st.sampled_from([0, 0, 1, 2, 4, 7, 12])), "episodes": eps,
+                    "connect_error": draw(st.sampled_from(CONNECT_ERRORS))})
+    return {"initial_refusals": draw(st.sampled_from([0, 0, 1, 2, 4, 7, 12])), "episodes": eps, "initial_error": draw(st.sampled_from(CONNECT_ERRORS)),
             "status_mode": draw(st.sampled_from(["plain", "plain", "slow", "slow_connected", "raise"]))}
 
 
+CONNECT_ERRORS = [False, True, "gai_noname", "gai_again", "timeout", "reset", "slow_refuse", "slow_accept", "eperm"]
+
+
+def failing_attempts(how, n):
+    """Connect plan: n failing attempts of the given kind, then the gateway accepts."""
+    import errno
+    import socket
+    last = ("accept",)
+    if how is False or how is None:
+        one = ("refuse",)
+    elif how is True:
+        one = ("error", OSError(errno.EHOSTUNREACH, "no route to host (simulated)"))
+    elif how == "gai_noname":
+        one = ("error", socket.gaierror(socket.EAI_NONAME, "Name or service not known (simulated)"))
+    elif how == "gai_again":
+        one = ("error", socket.gaierror(socket.EAI_AGAIN, "Temporary failure in name resolution (simulated)"))
+    elif how == "timeout":
+        one = ("error", TimeoutError(errno.ETIMEDOUT, "connection timed out (simulated)"))
+    elif how == "reset":
+        one = ("error", ConnectionResetError(errno.ECONNRESET, "connection reset by peer (simulated)"))
+    elif how == "eperm":
+        one = ("error", PermissionError(errno.EACCES, "permission denied (simulated)"))
+    elif how == "slow_refuse":
+        one = ("refuse", 45.0)          # the attempt hangs for 45 s before it is refused
+    else:
+        one = ("refuse",)
+        last = ("accept", 45.0)         # ... or before it is accepted
+    return [one] * n + [last]
+
+
 def run_script(kind, script):
-    plan = [("refuse",)] * script["initial_refusals"] + [("accept",)]
+    plan = failing_attempts(script.get("initial_error", False), script["initial_refusals"])
     s = aio.Session(kind, connect_plan=plan)
     s.status_mode = script.get("status_mode", "plain")
     s.fault_times = []
@@ -81,7 +111,7 @@ def run_script(kind, script):
     async def wait_link(n, limit=None):
         if limit is None:
             # the retry delay is capped: every refusal costs at most ~10 virtual s
-            limit = 200.0 + 11.0 * max([script["initial_refusals"]] + [ep["refusals"] for ep in script["episodes"]])
+            limit = 300.0 + 60.0 * max([script["initial_refusals"]] + [ep["refusals"] for ep in script["episodes"]])
         t0 = s.loop.time()
         while len(s.gw.links) <= n:
             if s.loop.time() - t0 > limit:
@@ -94,8 +124,7 @@ def run_script(kind, script):
             s.notes.append("fault-on-dead-link")
             return
         s.fault_times.append((s.loop.time(), ep["fault"], link.index))
-        refuse = ("error", OSError("no route to host (simulated)")) if ep["connect_error"] else ("refuse",)
-        s.gw.plan[:] = [refuse] * ep["refusals"] + [("accept",)]
+        s.gw.plan[:] = failing_attempts(ep["connect_error"], ep["refusals"])
         f = ep["fault"]
         if ep["mid_packet"] and f in ("eof", "reset"):
             link.feed(valid_packet(kind)[:7])
@@ -183,19 +212,22 @@ def evaluate(kind, script, outcome, s):
             out.append((f"C13|{kind}|no-disconnected|{f}", f"fault '{f}' at t={t - s.t0:.3f}: DISCONNECTED not reported within 35 virtual s (status after the fault: {later[:4]})", case))
     # (2) attempts / back-off
     att = s.gw.attempts
+    ends = list(s.gw.attempt_ends) + [None] * (len(att) - len(s.gw.attempt_ends))
     acc = sorted(s.accept_times)
     runs, cur = [], []
     ai = 0
-    for a in att:
-        cur.append(a)
-        if ai < len(acc) and abs(acc[ai] - a) < 1e-9:
+    for a, e in zip(att, ends):
+        cur.append((a, e))
+        if e is not None and ai < len(acc) and abs(acc[ai] - e) < 1e-9:
             runs.append(cur)
             cur = []
             ai += 1
     if cur:
         runs.append(cur)
     for r in runs:
-        gaps = [b - a for a, b in zip(r, r[1:])]
+        # pause between the answer to one attempt and the start of the next
+        gaps = [b[0] - (a[1] if a[1] is not None else a[0]) for a, b in zip(r, r[1:])]
+        r = [x[0] for x in r]
         for i, g in enumerate(gaps):
             if g <= 0:
                 out.append((f"C13|{kind}|backoff-zero", f"attempt gap {g} s (attempt times {[round(x - s.t0, 3) for x in r][:8]})", case))
@@ -265,7 +297,10 @@ def _special(ctx: Ctx, item):
     """Long outages (more than a thousand refused attempts in a row) and a second client of the process connecting while the first
     one is backing off."""
     kind, what = item
-    if what == "long":
+    if what == "errors":
+        variants = [{"initial_refusals": 2, "initial_error": e, "status_mode": "plain",
+                     "episodes": [{"fault": "eof", "at": ("time", 0.5), "mid_packet": False, "refusals": 2, "connect_error": e}]} for e in CONNECT_ERRORS]
+    elif what == "long":
         variants = [{"initial_refusals": 1100, "episodes": [], "status_mode": "plain"},
                     {"initial_refusals": 0, "status_mode": "plain",
                      "episodes": [{"fault": "eof", "at": ("time", 0.5), "mid_packet": False, "refusals": 1100, "connect_error": False}]}]
@@ -277,15 +312,15 @@ def _special(ctx: Ctx, item):
     for script in variants:
         ctx.count()
         ctx.nontrivial_extra += 1
-        ctx.klass("long_outage" if what == "long" else "second_client_connects_during_backoff")
+        ctx.klass("long_outage" if what == "long" else "every_connect_error_kind" if what == "errors" else "second_client_connects_during_backoff")
         outcome, s = run_script(kind, script)
         for b, w, c in evaluate(kind, script, outcome, s):
-            ctx.report(b + ("|long-outage" if what == "long" else "|second-client"), w, c)
+            ctx.report(b + ("|long-outage" if what == "long" else "|connect-errors" if what == "errors" else "|second-client"), w, c)
 
 
 def run(ctx: Ctx):
     import os
-    pmap(ctx, _special, [(k, w) for k in aio.CLIENT_KINDS for w in (("companion",) if os.environ.get("VF_SUBPASS") else ("companion", "long"))])
+    pmap(ctx, _special, [(k, w) for k in aio.CLIENT_KINDS for w in (("companion", "errors") if os.environ.get("VF_SUBPASS") else ("companion", "errors", "long"))])
     n = 25 if ctx.quick else 2500
     pmap(ctx, _work, [(k, n) for k in aio.CLIENT_KINDS for _ in range(4)])
     ks = range(0, 12) if ctx.quick else range(0, 160)
@@ -309,6 +344,8 @@ def replay(ctx: Ctx, case):
     res = evaluate(case["client"], script, outcome, s)
     if script.get("companion_connects"):
         res = [(b + "|second-client", w, c) for b, w, c in res]
+    elif script.get("initial_error") not in (None, False) and len(script["episodes"]) == 1 and script["initial_refusals"] == 2:
+        res = res + [(b + "|connect-errors", w, c) for b, w, c in res]
     elif max([script["initial_refusals"]] + [ep["refusals"] for ep in script["episodes"]]) >= 1000:
         res = [(b + "|long-outage", w, c) for b, w, c in res]
     return res
